@@ -144,6 +144,31 @@ def from_flat(space, a):
     return space.element(np.array(a, dtype=space.dtype).reshape(space.shape))
 
 
+def has_layout(space):
+    """True if some tensor part of the space has more than one axis (so that C and F order differ)."""
+    if is_field(space):
+        return False
+    if is_pspace(space):
+        return any(has_layout(s) for s in space)
+    return len(space.shape) >= 2 and min(space.shape) >= 2
+
+
+def from_flat_F(space, a):
+    """Like from_flat, but every tensor part wraps a Fortran-ordered array (same values)."""
+    a = np.asarray(a)
+    if is_field(space):
+        return from_flat(space, a)
+    if is_pspace(space):
+        parts, pos = [], 0
+        for s in space:
+            n = flat_size(s)
+            parts.append(from_flat_F(s, a[pos:pos + n]))
+            pos += n
+        return space.element(parts)
+    arr = np.asfortranarray(np.array(a, dtype=space.dtype).reshape(space.shape))
+    return space.element(arr)
+
+
 def is_complex(space):
     return np.issubdtype(dtype_of(space), np.complexfloating)
 
